@@ -50,7 +50,7 @@ def parseNames (s : String) : Option (List Name) :=
   if s = "-" then some [] else (s.splitOn ";").mapM hexToName
 
 def cmp (args : List String) : String :=
-  match args with
+  match args.take 3 with
   | [src, upd, names] =>
     match fromHex src, parseNamedUpdates upd, parseNames names with
     | some src, some upd, some names =>
